@@ -54,6 +54,7 @@ namespace irx {
     std::map<int, std::vector<std::pair<int, int64_t>>> tlocks;
     std::map<int, int> tguard;
     std::set<int> raced_objs;
+    std::vector<std::tuple<int, int64_t, int64_t>> hist_exempt;
     std::unordered_map<unsigned, bool> dcache;
     std::vector<z3::expr> dkeep; // keeps decided conditions alive so that their AST ids stay valid cache keys
     long insts_path = 0;
